@@ -20,7 +20,7 @@ structure Aff (F : Type) where
   infinity : Bool
 deriving DecidableEq
 
-variable {F : Type} [FieldOps F] [DecidableEq F]
+variable {F : Type} [Add F] [Sub F] [Mul F] [Neg F] [Zero F] [One F] [FieldOps F] [DecidableEq F]
 
 namespace Jac
 
